@@ -1,6 +1,7 @@
 package desync
 
 import (
+	"bytes"
 	"errors"
 	"io"
 	"io/ioutil"
@@ -84,6 +85,16 @@ func NewSparseFile(name string, idx Index, s Store, opt SparseFileOptions) (*Spa
 		}
 	}
 
+	// Read the state to initialize from before anything is touched, it can be the
+	// same file as the one the state is saved to
+	var initState []byte
+	if opt.StateInitFile != "" {
+		initState, err = os.ReadFile(opt.StateInitFile)
+		if err != nil {
+			return nil, err
+		}
+	}
+
 	// The sparse file is about to be (re-)initialized. A state file left over from an
 	// earlier incarnation of it no longer describes it and must not be picked up by a
 	// later start, replace it with the blank state before touching the file: whatever
@@ -103,12 +114,7 @@ func NewSparseFile(name string, idx Index, s Store, opt SparseFileOptions) (*Spa
 	// This will concurrently load all chunks marked "done" in the state file and
 	// write them to the sparse file.
 	if opt.StateInitFile != "" {
-		initFile, err := os.Open(opt.StateInitFile)
-		if err != nil {
-			return nil, err
-		}
-		defer initFile.Close()
-		if err := loader.preloadChunksFromState(initFile, opt.StateInitConcurrency); err != nil {
+		if err := loader.preloadChunksFromState(bytes.NewReader(initState), opt.StateInitConcurrency); err != nil {
 			return nil, err
 		}
 	}
